@@ -19,6 +19,7 @@ EBCDIC_FAMILY = ('cp500', 'cp037', 'cp1140')
 
 
 def prepare(ctx):
+    ctx.online_wanted = ('C03', 'C04', 'C05', 'C09')      # shadow-model monitors watch the file layer while this workload runs
     from cardutil import mciipm
     from cardutil.config import config
     ctx.mciipm = mciipm
